@@ -130,10 +130,12 @@ for _p, _m in MORE.items():
     CHECKS[_p]["text"] += " " + _m
 
 # wave 8 and the required-projects extension of the project engine
-REQ = ("Projects with requirements (20-35% of the generated projects): dawn.toml names 1-3 other projects at versions (direct and transitive, also in cycles for C06), "
+REQ = ("Projects with requirements (20-35% of the generated projects): dawn.toml names 1-4 other projects at versions (direct and transitive, also in cycles for C06; "
+       "requirements of requirements that are not monotone in the requiring version, an alias that names another project in some versions, the next major version of a project "
+       "as a project of its own, flags declared by required modules), "
        "their modules are fetched by dawn's own resolver from a simulated network into the module cache - by several loaders at once - and loaded from there.")
 MORE8 = {
-    "C01": REQ + " A requirement moved to another version is an edit (also under watch-mode Reload); the module cache may disappear between builds. A flaky step on a loaded project: a target runs because its output was deleted or the run is forced, its body fails after writing half of the output, and the same loaded project runs again (compared with a from-scratch build).",
+    "C01": REQ + " A requirement moved to another version is an edit (also under watch-mode Reload, also while the network is down during the reload); the module cache may disappear between builds. A flaky step on a loaded project: a target runs because its output was deleted or the run is forced, its body fails after writing half of the output, and the same loaded project runs again (compared with a from-scratch build).",
     "C02": REQ + " Wiping the module cache is a no-op edit. Forced builds (of the label, or of a target inside its closure) inside the watched window: nothing may run after them.",
     "C03": REQ + " Crash points therefore include every step of a fetch (temp directory, file-by-file checkout, rename into the cache).",
     "C06": REQ + " Modules of required projects count in the once-only, termination and cycle oracles; a required project's module may fail while others wait for it; flaky-disk loads now also hit the resolver.",
